@@ -44,6 +44,7 @@ import (
 	"sort"
 	"strings"
 	"sync"
+	"sync/atomic"
 	"testing"
 	"time"
 
@@ -53,6 +54,7 @@ import (
 
 	"github.com/prometheus/alertmanager/app"
 	"github.com/prometheus/alertmanager/config"
+	"github.com/prometheus/alertmanager/dispatch"
 	"github.com/prometheus/alertmanager/featurecontrol"
 	"github.com/prometheus/alertmanager/matcher/compat"
 
@@ -324,6 +326,51 @@ func (w *world) exec(line string) string {
 		}
 		w.write(t[1], t[2])
 		var msg string
+		if t[3] == "slow" {
+			// the new dispatcher is held up while it routes the alerts it found in the provider (yield point of the verif
+			// build); an alert posted meanwhile must be notified by the NEW configuration only: the old dispatcher is gone
+			var stalled atomic.Bool
+			dispatch.VerifYield = func(point string) {
+				if point == "groupAlert:loaded" && !stalled.Swap(true) {
+					time.Sleep(600 * time.Millisecond)
+				}
+			}
+			done := make(chan error, 1)
+			go func() { done <- w.a.Reload() }()
+			time.Sleep(200 * time.Millisecond)
+			name := "late-" + t[1]
+			now := time.Now()
+			body, _ := json.Marshal([]map[string]any{{"labels": map[string]string{"alertname": name}, "startsAt": now.Format(time.RFC3339Nano), "endsAt": now.Add(30 * time.Minute).Format(time.RFC3339Nano)}})
+			code, _, perr := w.post("/api/v2/alerts", "application/json", body)
+			err := <-done
+			dispatch.VerifYield = nil
+			if err != nil {
+				return "err:" + w.stage(err.Error()) + " -"
+			}
+			if perr != nil || code != 200 {
+				return "ok posterr"
+			}
+			var first time.Time
+			for deadline := time.Now().Add(probeWait); time.Now().Before(deadline); time.Sleep(10 * time.Millisecond) {
+				w.mu.Lock()
+				n := len(w.got[name])
+				w.mu.Unlock()
+				if n > 0 && first.IsZero() {
+					first = time.Now()
+				}
+				if !first.IsZero() && time.Since(first) > 2*probeSettle {
+					break
+				}
+			}
+			w.mu.Lock()
+			var who []string
+			for k := range w.got[name] {
+				who = append(who, k)
+			}
+			w.mu.Unlock()
+			sort.Strings(who)
+			return "ok " + hx.Join(who, ",")
+		}
 		if t[3] == "api" {
 			if err := w.a.Reload(); err != nil {
 				msg = err.Error()
@@ -375,7 +422,14 @@ func (w *world) exec(line string) string {
 			return map[string]any{"labels": map[string]string{"alertname": name, "role": role},
 				"startsAt": now.Format(time.RFC3339Nano), "endsAt": now.Add(30 * time.Minute).Format(time.RFC3339Nano)}
 		}
-		body, _ := json.Marshal([]map[string]any{mk("src"), mk("tgt")})
+		// the target first: its group flushes (group_wait 100 ms) while no source fires; the source comes afterwards, so
+		// what the last flush of the group saw is NOT the current verdict
+		body, _ := json.Marshal([]map[string]any{mk("tgt")})
+		if code, resp, err := w.post("/api/v2/alerts", "application/json", body); err != nil || code != 200 {
+			return fmt.Sprintf("posterr:%d:%s", code, hx.Hex(string(resp)))
+		}
+		time.Sleep(350 * time.Millisecond)
+		body, _ = json.Marshal([]map[string]any{mk("src")})
 		if code, resp, err := w.post("/api/v2/alerts", "application/json", body); err != nil || code != 200 {
 			return fmt.Sprintf("posterr:%d:%s", code, hx.Hex(string(resp)))
 		}
@@ -430,7 +484,27 @@ func (w *world) exec(line string) string {
 				break
 			}
 		}
-		return out
+		// the same alert as GET /api/v2/alerts/groups reports it, right away (before the group's next flush)
+		grp := "grp=missing"
+		if code, body, err := w.get("/api/v2/alerts/groups?filter=" + "alertname%3D%22" + name + "%22"); err == nil && code == 200 {
+			var gs []struct {
+				Alerts []gettable `json:"alerts"`
+			}
+			if json.Unmarshal(body, &gs) == nil {
+				for _, g := range gs {
+					for i := range g.Alerts {
+						if a := &g.Alerts[i]; a.Labels["role"] == "tgt" {
+							silOK := 0
+							if len(a.Status.SilencedBy) == 1 && a.Status.SilencedBy[0] == sr.SilenceID {
+								silOK = 1
+							}
+							grp = fmt.Sprintf("grp=%s:%d:%d", a.Status.State, silOK, len(a.Status.InhibitedBy))
+						}
+					}
+				}
+			}
+		}
+		return out + " " + grp
 	case "stop":
 		if w.a == nil {
 			return "noapp"
@@ -575,9 +649,17 @@ func TestInner(t *testing.T) {
 				lines = append(lines, fmt.Sprintf("reload %s %s %s", c, f, hx.Pick(r, vias)))
 			}
 			lines = append(lines, "status", probe(hx.Pick(r, []string{"-", "x"})))
+			if f != "none" && f != "template-ok" {
+				// the inhibitor and silencer of the configuration in force are still the ones answering
+				lines = append(lines, fmt.Sprintf("astatus s%d-%s", id, c))
+			}
 			if r.IntN(3) == 0 {
 				lines = append(lines, probe(hx.Pick(r, []string{"-", "x"})))
 			}
+		}
+		if id%2 == 1 {
+			c := cfg()
+			lines = append(lines, fmt.Sprintf("reload %s none slow", c), "status", probe("x"))
 		}
 		lines = append(lines, fmt.Sprintf("astatus s%d-1", id), "stop")
 		runCase(t, tr, repo, fmt.Sprintf("case %d kind=reload", id), lines)
